@@ -22,7 +22,7 @@ import dump_sites  # noqa: E402
 PID = "C16"
 GEN_GROUPS = ["SiteLim", "Sites"]
 TARGETS = ["coq/Props/C16.vo", "coq/Model/Sites.vo"]
-CASES = {"quick": 228, "thorough": 3612}   # 36 configurations x 6 / 100 interleaved rounds
+CASES = {"quick": 156, "thorough": 3612}   # 12 prelude cases + 36 configurations x 4 / 100 interleaved rounds
 SHARD = 18
 CORR_HEADER = ("From Coq Require Import String ZArith QArith List Bool.\n"
                "From ACN Require Import Base.Num Model.Feasible Gen.Sites Model.Sites.\nImport ListNotations.\n"
@@ -42,6 +42,7 @@ TRUSTED_EXTRA = ["tools/dump_sites.py (executes the factories, classifies constr
 F = fractions.Fraction
 SQ3 = math.sqrt(3)
 PHASES = (30.0, -90.0, 150.0)
+SIG_OBJ = "object-dtype-matrix"
 _nets = {}
 
 
@@ -112,6 +113,8 @@ def truth(site, ids, kw):
 def run_impl(net, X, T):
     import numpy as np
     Xa = np.array(X, dtype=float).reshape(len(X), T)
+    if X and all(float(v).is_integer() for r in X for v in r):
+        Xa = Xa.astype(int)          # integer-valued schedules are handed over as integer arrays
     raised = []
     out = []
     for lin in (False, True):
@@ -126,7 +129,9 @@ def run_impl(net, X, T):
 def ask_iface(itf, ids, X, raised, what):
     from acnportal.acnsim.interface import InvalidScheduleError
     try:
-        return bool(itf.is_feasible({ids[i]: list(X[i]) for i in range(len(ids))}))
+        # mixed element types: integral rates go in as python ints, the others as floats
+        return bool(itf.is_feasible({ids[i]: [int(v) if float(v).is_integer() else v for v in X[i]]
+                                     for i in range(len(ids))}))
     except InvalidScheduleError:
         return None
     except Exception as e:  # noqa
@@ -142,6 +147,26 @@ def observe(site, basic, idx, X, T):
     ids = list(net.station_ids)
     feas, feas_lin, raised = run_impl(net, X, T)
     iface = ask_iface(ex["itf"], ids, X, raised, "Interface.is_feasible")
+    from acnportal.algorithms.utils import infrastructure_constraints_feasible as icf
+    alg, alg_known = None, None
+    Xf = np.array(X, dtype=float).reshape(len(X), T)
+    info = ex["itf"].infrastructure_info()
+    try:
+        alg = bool(icf(Xf, info))
+    except TypeError as e:
+        if info.constraint_matrix.dtype == object:
+            # open finding: an object-dtype constraint matrix (jpl_acn) makes the 2-D phase-aware call raise;
+            # the 1-D call the sorted algorithms make still works and is compared instead
+            alg_known = "%s: %s" % (type(e).__name__, str(e)[:80])
+            if T == 1:
+                try:
+                    alg = bool(icf(Xf[:, 0], info))
+                except Exception as e2:  # noqa
+                    raised.append("infrastructure_constraints_feasible (1-D): %s" % type(e2).__name__)
+        else:
+            raised.append("infrastructure_constraints_feasible: TypeError: %s" % str(e)[:120])
+    except Exception as e:  # noqa
+        raised.append("infrastructure_constraints_feasible: %s: %s" % (type(e).__name__, str(e)[:120]))
     try:
         reload_feas = bool(ex["rel"].is_feasible(np.array(X, dtype=float).reshape(len(X), T)))
     except Exception as e:  # noqa
@@ -151,12 +176,12 @@ def observe(site, basic, idx, X, T):
     reload_iface = ask_iface(ex["ritf"], ids, X, raised, "Interface(reloaded).is_feasible")
     trs, pods, panels = truth(site, ids, kw)
     volts = [float(v) for v in net._voltages]
-    power = [sum(volts[i] * X[i][0] for i in mem) for _, mem in trs]
+    power = [sum(volts[i] * (X[i][0] if T > 0 else 0.0) for i in mem) for _, mem in trs]
     names = list(net.constraint_index)
     A = net.constraint_matrix
     sec = [j for j, nm in enumerate(names) if "Secondary" in nm]
     uncovered = [ids[i] for i in range(len(ids)) if not any(A[j][i] != 0 for j in sec)]
-    return dict(feasible=feas, feasible_lin=feas_lin, iface=iface, reload=reload_feas, reload_iface=reload_iface,
+    return dict(feasible=feas, feasible_lin=feas_lin, iface=iface, alg=alg, alg_known=alg_known, reload=reload_feas, reload_iface=reload_iface,
                 reload_same=ex["same"], raised=raised, power=power,
                 phases=[float(p) for p in net._phase_angles], uncovered=uncovered, ids=ids,
                 max_rates=[float(x) for x in net.max_pilot_signals])
@@ -241,7 +266,7 @@ def gen_cases(rng, n, tier):
             cases.append(crash_case(site, False, 0, e))
     rounds = max(1, (n - len(cases)) // len(cfgs))
     for r in range(rounds):
-        T = rng.choice([1, 1, 1, 2])
+        T = rng.choice([1, 1, 1, 2, 1, 2, 0])
         groups = {}
         for c in cfgs:
             groups.setdefault(c[0], []).append(c)
@@ -255,12 +280,37 @@ def gen_cases(rng, n, tier):
             except Exception as e:  # noqa
                 cases.append(crash_case(site, basic, idx, e))
             prev = [site, basic, idx]
+    try:
+        cases.extend(other_process_dump())
+    except Exception as e:  # noqa
+        cases.append(crash_case("second process", False, 0, e))
     # report order only: a case with a misjudged schedule goes before purely structural findings
     for k, c in enumerate(cases):
         if "crash" not in c["input"] and not c["input"].get("crash") and monitor_(c):
             cases.insert(0, cases.pop(k))
             break
     return cases
+
+
+def other_process_dump():
+    """the site dump produced by a SECOND process with another PYTHONHASHSEED must be byte-identical to the one
+    this run's proofs were checked against (station order, phase groups, matrix must not depend on hashing)"""
+    import subprocess
+    from harness.core import REPO
+    env = dict(os.environ, PYTHONHASHSEED="4242")
+    code = ("import sys, warnings; warnings.filterwarnings('ignore'); sys.path.insert(0, 'tools'); import dump_sites; "
+            "sys.stdout.write(dump_sites.generate(%r)[0][1])" % REPO)
+    p = subprocess.run([sys.executable, "-c", code], cwd=ROOT, env=env, stdout=subprocess.PIPE, stderr=subprocess.PIPE,
+                       text=True, timeout=180)
+    with open(os.path.join(ROOT, "coq", "Gen", "Sites.v")) as f:
+        here = f.read().split("\n", 1)[1]
+    if p.returncode == 0 and p.stdout == here:
+        return []
+    why = "second process failed: " + p.stderr[-300:] if p.returncode else "dump differs"
+    first = next((a for a, b in zip(p.stdout.splitlines(), here.splitlines()) if a != b), "")[:160]
+    return [dict(input=dict(site="?", basic=False, idx=0, crash=True),
+                 impl=dict(crash="site dump of a second process (PYTHONHASHSEED=4242): %s %s" % (why, first)),
+                 coq="", ambiguous=True, nontrivial=False, kind="other-process", sig=["other-process"])]
 
 
 def one_case(rng, cx, site, basic, idx, kw, T, prev, X=None):
@@ -278,15 +328,19 @@ def one_case(rng, cx, site, basic, idx, kw, T, prev, X=None):
     amb = c06.robust(cur, L, vt, rt) is None or c06.robust(curl, L, vt, rt) is None
     ob = lambda v: "None" if v is None else "(Some %s)" % coq_bool(v)
     coq = ("{| k_site := %s; k_T := %d%%nat; k_X := %s; j_feasible := %s; j_feasible_lin := %s; j_iface := %s; "
-           "j_reload := %s; j_reload_iface := %s; j_power := %s |}" % (
+           "j_alg := %s; j_reload := %s; j_reload_iface := %s; j_power := %s |}" % (
                site_name(site, basic, idx), T, coq_list([coq_list([q(v) for v in r]) for r in X]),
-               coq_bool(impl["feasible"]), coq_bool(impl["feasible_lin"]), ob(impl["iface"]), coq_bool(impl["reload"]),
+               coq_bool(impl["feasible"]), coq_bool(impl["feasible_lin"]), ob(impl["iface"]), ob(impl["alg"]),
+               coq_bool(impl["reload"]),
                ob(impl["reload_iface"]), coq_list([q(p) for p in impl["power"]])))
     inp = dict(site=site, basic=basic, idx=idx, X=X, T=T, before=prev)
+    sig = [site, idx, X]
+    if impl.get("alg_known") and not monitor_(dict(input=inp, impl=impl, ambiguous=amb)):
+        sig = SIG_OBJ
     return dict(input=inp, impl=impl, coq=coq, ambiguous=amb, nontrivial=True,
                 kind="%s/%s/%s/%s/%s" % (site, "v%g" % kw.get("voltage", 208), kind, "+".join(sorted(set(colkinds))),
                                          "feasible" if impl["feasible"] else "infeasible"),
-                sig=[site, idx, X])
+                sig=sig)
 
 
 # ------------------------------------------------------------------------------------------
@@ -308,6 +362,8 @@ def monitor(case):
     diff = [k for k, v in case["impl"].get("reload_same", {}).items() if not v]
     if diff:
         return "network reloaded from its own JSON differs from the original in: %s" % ", ".join(diff)
+    if case["impl"].get("alg_known"):
+        return "[%s] infrastructure_constraints_feasible raised on a 2-D schedule: %s" % (SIG_OBJ, case["impl"]["alg_known"])
     return None
 
 
@@ -338,6 +394,8 @@ def monitor_(case):
         how = "feasible (linear=True)"
     elif impl.get("iface"):
         how = "feasible by Interface.is_feasible"
+    elif impl.get("alg"):
+        how = "feasible by algorithms.utils.infrastructure_constraints_feasible on the site's InfrastructureInfo"
     elif impl.get("reload"):
         how = "feasible by the JSON-reloaded network"
     elif impl.get("reload_iface"):
@@ -361,6 +419,12 @@ def monitor_(case):
                 if cur > rating * slack:
                     return "schedule reported %s puts %.3f A on line %s of a %d A sub-panel" % (how, cur, "abc"[k], rating)
     return None
+
+
+def monitor_nk(case):
+    """the monitor without the open known findings (used by the searches)"""
+    r = monitor(case)
+    return None if (r and r.startswith("[")) else r
 
 
 def ascent(rng, site, basic, idx, budget_s, lin=None):
@@ -418,7 +482,7 @@ def ascent(rng, site, basic, idx, budget_s, lin=None):
         X = [[float(v)] for v in x]
         impl = observe(site, basic, idx, X, 1)
         c = dict(input=dict(site=site, basic=basic, idx=idx, X=X, T=1), impl=impl)
-        r = monitor(c)
+        r = monitor_nk(c)
         if r:
             return dict(case=c["input"], impl=impl, why=r)
     return None
@@ -462,7 +526,7 @@ def interleave_probe(rng):
                 impl = observe(second[0], second[1], second[2], X, 1)
                 c = dict(input=dict(site=second[0], basic=second[1], idx=second[2], X=X, T=1, before=list(first[:3])),
                          impl=impl)
-                r = monitor(c)
+                r = monitor_nk(c)
                 if r:
                     return dict(case=c["input"], impl=impl, why=r)
     return None
@@ -494,7 +558,7 @@ def search_(rng, budget_s, broken):
         impl = observe(site, basic, idx, X, 1)
         c = dict(input=dict(site=site, basic=basic, idx=idx, X=X, T=1, before=prev), impl=impl)
         prev = [site, basic, idx]
-        r = monitor(c)
+        r = monitor_nk(c)
         if r:
             return dict(case=c["input"], impl=impl, why=r)
     # every EVSE at one common rate (e.g. all eight Office001 EVSEs at 32 A)
@@ -506,7 +570,7 @@ def search_(rng, budget_s, broken):
             impl = observe(site, basic, idx, X, 1)
             c = dict(input=dict(site=site, basic=basic, idx=idx, X=X, T=1, before=prev), impl=impl)
             prev = [site, basic, idx]
-            r = monitor(c)
+            r = monitor_nk(c)
             if r:
                 return dict(case=c["input"], impl=impl, why=r)
     # then maximise the load on every configuration in turn (short ascents, several rounds)
@@ -546,4 +610,20 @@ def replay(w):
         get_extra(inp["site"], inp["basic"], inp["idx"])
         run_impl(nb, [[0.0] * inp["T"]] * len(nb.station_ids), inp["T"])
     impl = observe(inp["site"], inp["basic"], inp["idx"], inp["X"], inp["T"])
-    return monitor(dict(input=inp, impl=impl))
+    return monitor_nk(dict(input=inp, impl=impl))
+
+
+def replay_known(entry):
+    """re-run the witness of an open finding on the real code; a description if it still fails"""
+    if entry.get("sig") == SIG_OBJ:
+        import numpy as np
+        from acnportal.acnsim.network import sites
+        from acnportal.algorithms.utils import infrastructure_constraints_feasible as icf
+        net = sites.jpl_acn()
+        info = c06.make_interface(net).infrastructure_info()
+        try:
+            icf(np.ones((len(net.station_ids), 2)), info)
+        except TypeError as e:
+            return "constraint_matrix dtype %s; %s" % (info.constraint_matrix.dtype, str(e)[:80])
+        return None
+    return "not re-checked"
